@@ -1512,12 +1512,18 @@ theorem validate_cpApr_ok_iff (a : CpAprArgs) : validate_cpApr a = .ok () ↔ Pr
   cases h1 : decide (0 < a.rank) <;> cases h2 : a.dataNonneg <;> cases h3 : initCpApr a.init a.shape a.rank <;>
     cases h4 : a.algorithm <;> simp_all [rejectIf]
 
-theorem validate_hosvd_ok_iff (N : Nat) (ranks : Option Nat) (dimorder : Option (List Int)) :
-    validate_hosvd N ranks dimorder = .ok () ↔ Pre_hosvd N ranks dimorder := by
+theorem ranksWithin_iff (shape : List Nat) (ranks : List Int) (lo : Int) :
+    ranksWithin shape ranks lo = true ↔ RanksWithin shape ranks lo := by
+  simp [ranksWithin, RanksWithin, List.all_eq_true]
+
+theorem validate_hosvd_ok_iff (shape : List Nat) (ranks : Option (List Int)) (dimorder : Option (List Int)) :
+    validate_hosvd shape ranks dimorder = .ok () ↔ Pre_hosvd shape ranks dimorder := by
   unfold validate_hosvd Pre_hosvd
-  have hr : optLen N ranks = true ↔ optAll ranks (fun k => k = N) := by
-    cases ranks <;> simp [optLen, optAll]
-  by_cases h1 : optLen N ranks = true
+  have hr : optRanks shape ranks = true ↔ optAll ranks (fun r => RanksWithin shape r 0) := by
+    cases ranks with
+    | none => simp [optRanks, optAll]
+    | some r => simp only [optRanks, optAll]; exact ranksWithin_iff _ _ _
+  by_cases h1 : optRanks shape ranks = true
   · rw [if_neg (by rw [not_bnot_true]; exact h1), rejectIf_ok, Bool.not_eq_false', optPerm_iff]
     simp [hr.1 h1]
   · rw [if_pos (by rw [bnot_true]; exact h1)]
@@ -1531,22 +1537,17 @@ theorem initTucker_iff (i : InitSpec) (shape : List Nat) (rank order : List Int)
 
 theorem validate_tucker_ok_iff (a : TuckerArgs) : validate_tucker a = .ok () ↔ Pre_tucker a := by
   unfold validate_tucker Pre_tucker
-  rw [← initTucker_iff, ← optPerm_iff]
-  by_cases h2 : a.rank.length = 1 ∨ a.rank.length = a.shape.length
-  · have h2' : (!(a.rank.length == 1 || a.rank.length == a.shape.length)) = false := by
-      rcases h2 with h | h <;> simp [h]
-    by_cases hN : a.shape.length = 0
-    · cases h1 : a.maxitersNonneg <;> cases h3 : optPerm a.shape.length a.dimorder <;>
-        cases h4 : initTucker a.init a.shape a.rank (a.dimorder.getD ((List.range a.shape.length).map Int.ofNat)) <;>
-        simp_all [rejectIf]
-    · have hN' : 0 < a.shape.length := by omega
-      cases h1 : a.maxitersNonneg <;> cases h3 : optPerm a.shape.length a.dimorder <;>
-        cases h4 : initTucker a.init a.shape a.rank (a.dimorder.getD ((List.range a.shape.length).map Int.ofNat)) <;>
-        simp_all [rejectIf] <;> omega
-  · have h2' : (!(a.rank.length == 1 || a.rank.length == a.shape.length)) = true := by
-      simp only [not_or] at h2
-      simp [h2.1, h2.2]
-    cases h1 : a.maxitersNonneg <;> simp_all
+  rw [← initTucker_iff, ← optPerm_iff, ← ranksWithin_iff]
+  by_cases hN : a.shape.length = 0
+  · cases h1 : a.maxitersNonneg <;> cases h2 : ranksWithin a.shape (expandRank a.shape.length a.rank) 1 <;>
+      cases h3 : optPerm a.shape.length a.dimorder <;>
+      cases h4 : initTucker a.init a.shape a.rank (a.dimorder.getD ((List.range a.shape.length).map Int.ofNat)) <;>
+      simp_all [rejectIf]
+  · have hN' : 0 < a.shape.length := by omega
+    cases h1 : a.maxitersNonneg <;> cases h2 : ranksWithin a.shape (expandRank a.shape.length a.rank) 1 <;>
+      cases h3 : optPerm a.shape.length a.dimorder <;>
+      cases h4 : initTucker a.init a.shape a.rank (a.dimorder.getD ((List.range a.shape.length).map Int.ofNat)) <;>
+      simp_all [rejectIf]
 
 theorem initGcp_iff (i : InitSpec) (shape : List Nat) (rank : Int) :
     initGcp i shape rank = true ↔ i.fitsGcp shape rank := by
@@ -1681,6 +1682,321 @@ theorem validate_import_ok_iff (a : ImportArgs) : validate_import a = .ok () ↔
       rintro ⟨h', _⟩; exact h1 h'.symm
   | unknown => simp [validate_import, Pre_import]
   | missing => simp [validate_import, Pre_import]
+
+/-! ### the remaining public operations -/
+
+theorem validate_mttkrps_ok_iff (shape : List Nat) (U : List MatS) :
+    validate_mttkrps shape U = .ok () ↔ Pre_mttkrps shape U := by
+  unfold validate_mttkrps Pre_mttkrps
+  by_cases h1 : U.length = shape.length
+  · rw [if_neg (by simp [h1])]
+    by_cases h2 : (List.range shape.length).all (fun i => U.getD i (0, 0) == (shape.getD i 0, (U.getD 0 (0, 0)).2)) = true
+    · rw [if_neg (by rw [not_bnot_true]; exact h2), rejectIf_ok]
+      have h2' : ∀ i, i < shape.length → U.getD i (0, 0) = (shape.getD i 0, (U.getD 0 (0, 0)).2) := by
+        intro i hi
+        exact beq_iff_eq.1 ((List.all_eq_true.1 h2) i (List.mem_range.2 hi))
+      simp only [decide_eq_false_iff_not, Nat.not_lt, h1, true_and]
+      exact ⟨fun h => ⟨h, h2'⟩, fun h => h.1⟩
+    · rw [if_pos (by rw [bnot_true]; exact h2)]
+      simp only [error_ne_ok, false_iff]
+      rintro ⟨_, _, h⟩
+      apply h2
+      rw [List.all_eq_true]
+      intro i hi
+      rw [beq_iff_eq]
+      exact h i (List.mem_range.1 hi)
+  · rw [if_pos (by simp [h1])]
+    simp [h1]
+
+theorem optMode_iff (N : Nat) (o : Option Int) : optMode N o = true ↔ optAll o (IsMode N) := by
+  cases o <;> simp [optMode, optAll, IsMode]
+
+theorem validate_ttsvDirect_ok_iff (a : TtsvArgs) : validate_ttsvDirect a = .ok () ↔ a.directOK := by
+  unfold validate_ttsvDirect TtsvArgs.directOK
+  by_cases he : a.shape = []
+  · simp [he]
+  · rw [if_neg (by simpa using he)]
+    by_cases h2 : a.shape.any (fun e => e != a.shape.getD 0 0) = true
+    · rw [if_pos h2]
+      simp only [error_ne_ok, false_iff]
+      rintro ⟨_, h, _⟩
+      obtain ⟨e, he', hne⟩ := List.any_eq_true.1 h2
+      exact (bne_iff_ne.1 hne) (h e he')
+    · rw [if_neg h2, rejectIf_ok]
+      have h2' : ∀ e ∈ a.shape, e = a.shape.getD 0 0 := by
+        intro e he'
+        apply Decidable.byContradiction
+        intro hne
+        exact h2 (List.any_eq_true.2 ⟨e, he', bne_iff_ne.2 hne⟩)
+      simp only [Bool.and_eq_false_imp, decide_eq_true_eq, bne_eq_false_iff_eq, ne_eq, he, not_false_eq_true, true_and]
+      exact ⟨fun h => ⟨h2', h⟩, fun h => h.2⟩
+
+theorem validate_ttsv_ok_iff (a : TtsvArgs) : validate_ttsv a = .ok () ↔ Pre_ttsv a := by
+  unfold validate_ttsv Pre_ttsv
+  rw [← optMode_iff]
+  by_cases h1 : optMode a.shape.length a.skip = true
+  · rw [if_neg (by rw [not_bnot_true]; exact h1)]
+    simp only [h1, true_and]
+    cases a.version with
+    | v1 => exact validate_ttv_ok_iff _
+    | v2 => exact validate_ttsvDirect_ok_iff a
+    | default => exact validate_ttsvDirect_ok_iff a
+    | other => simp
+  · rw [if_pos (by rw [bnot_true]; exact h1)]
+    simp [h1]
+
+theorem groupsValid_iff (N : Nat) (G : List (List Int)) : groupsValid N G = true ↔ ∀ g ∈ G, ModesOK N g := by
+  unfold groupsValid
+  rw [List.all_eq_true]
+  constructor
+  · intro h g hg
+    have := h g hg
+    rw [Bool.and_eq_true, allInRange_iff, Bool.not_eq_true', hasDupI_false] at this
+    exact this
+  · intro h g hg
+    rw [Bool.and_eq_true, allInRange_iff, Bool.not_eq_true', hasDupI_false]
+    exact h g hg
+
+theorem sameExt_iff (shape : List Nat) (g : List Int) : sameExt shape g = true ↔ SameExtents shape g := by
+  simp [sameExt, SameExtents, List.all_eq_true]
+
+theorem overlaps_false_iff (g h : List Int) : overlaps g h = false ↔ GroupsDisjoint g h := by
+  simp [overlaps, GroupsDisjoint, List.any_eq_false]
+
+theorem any_overlaps_false_iff (g : List Int) (rest : List (List Int)) :
+    rest.any (overlaps g) = false ↔ ∀ h ∈ rest, GroupsDisjoint g h := by
+  rw [List.any_eq_false]
+  exact ⟨fun hh h hm => (overlaps_false_iff g h).1 (by simpa using hh h hm),
+         fun hh h hm => by rw [(overlaps_false_iff g h).2 (hh h hm)]; simp⟩
+
+theorem symNewGo_ok_iff (shape : List Nat) (G : List (List Int)) :
+    symNewGo shape G = .ok () ↔ (∀ g ∈ G, SameExtents shape g) ∧ G.Pairwise GroupsDisjoint := by
+  induction G with
+  | nil => simp [symNewGo]
+  | cons g rest ih =>
+    unfold symNewGo
+    by_cases h1 : sameExt shape g = true
+    · rw [if_neg (by rw [not_bnot_true]; exact h1)]
+      by_cases h2 : rest.any (overlaps g) = true
+      · rw [if_pos h2]
+        simp only [error_ne_ok, false_iff]
+        rintro ⟨_, hp⟩
+        rw [List.pairwise_cons] at hp
+        have := (any_overlaps_false_iff g rest).2 hp.1
+        rw [this] at h2; cases h2
+      · rw [if_neg h2, ih]
+        have h2' := (any_overlaps_false_iff g rest).1 (by simpa using h2)
+        simp only [List.mem_cons, forall_eq_or_imp, List.pairwise_cons, (sameExt_iff shape g).1 h1, true_and]
+        exact ⟨fun h => ⟨h.1, h2', h.2⟩, fun h => ⟨h.1, h.2.2⟩⟩
+    · rw [if_pos (by rw [bnot_true]; exact h1)]
+      simp only [error_ne_ok, false_iff]
+      rintro ⟨h, _⟩
+      exact h1 ((sameExt_iff shape g).2 (h g (List.mem_cons_self ..)))
+
+theorem overlapAny_false_iff (G : List (List Int)) : overlapAny G = false ↔ G.Pairwise GroupsDisjoint := by
+  induction G with
+  | nil => simp [overlapAny]
+  | cons g rest ih =>
+    unfold overlapAny
+    rw [Bool.or_eq_false_iff, any_overlaps_false_iff, ih, List.pairwise_cons]
+
+theorem validate_symmetrize_ok_iff (shape : List Nat) (grps : Option (List (List Int))) (old : Bool) :
+    validate_symmetrize shape grps old = .ok () ↔ Pre_symmetrize shape grps := by
+  unfold validate_symmetrize Pre_symmetrize
+  by_cases h1 : groupsValid shape.length (symGroups shape.length grps) = true
+  · rw [if_neg (by rw [not_bnot_true]; exact h1)]
+    have h1' := (groupsValid_iff _ _).1 h1
+    refine Iff.trans ?_ (⟨fun h => ⟨h1', h⟩, fun h => h.2⟩ :
+      ((∀ g ∈ symGroups shape.length grps, SameExtents shape g) ∧ (symGroups shape.length grps).Pairwise GroupsDisjoint) ↔ _)
+    cases old with
+    | false => simp only [Bool.false_eq_true, if_false]; exact symNewGo_ok_iff _ _
+    | true =>
+      simp only [if_true]
+      by_cases h2 : (symGroups shape.length grps).all (sameExt shape) = true
+      · rw [if_neg (by rw [not_bnot_true]; exact h2), rejectIf_ok, overlapAny_false_iff]
+        have : ∀ g ∈ symGroups shape.length grps, SameExtents shape g := fun g hg =>
+          (sameExt_iff shape g).1 ((List.all_eq_true.1 h2) g hg)
+        exact ⟨fun h => ⟨this, h⟩, fun h => h.2⟩
+      · rw [if_pos (by rw [bnot_true]; exact h2)]
+        simp only [error_ne_ok, false_iff]
+        rintro ⟨h, _⟩
+        apply h2
+        rw [List.all_eq_true]
+        exact fun g hg => (sameExt_iff shape g).2 (h g hg)
+  · rw [if_pos (by rw [bnot_true]; exact h1)]
+    simp only [error_ne_ok, false_iff]
+    rintro ⟨h, _⟩
+    exact h1 ((groupsValid_iff _ _).2 h)
+
+theorem validate_issymmetric_ok_iff (shape : List Nat) (grps : Option (List (List Int))) :
+    validate_issymmetric shape grps = .ok () ↔ Pre_issymmetric shape grps := by
+  unfold validate_issymmetric Pre_issymmetric
+  rw [rejectIf_ok, Bool.not_eq_false', groupsValid_iff]
+
+theorem validate_ksymmetrize_ok_iff (shape : List Nat) : validate_ksymmetrize shape = .ok () ↔ Pre_ksymmetrize shape := by
+  unfold validate_ksymmetrize Pre_ksymmetrize
+  by_cases he : shape = []
+  · simp [he]
+  · rw [if_neg (by simpa using he), rejectIf_ok, Bool.not_eq_false', List.all_eq_true]
+    simp only [beq_iff_eq, ne_eq, he, not_false_eq_true, true_and]
+
+theorem validate_kmatch_ok_iff (sa sb : List Nat) (ra rb : Nat) :
+    validate_kmatch sa sb ra rb = .ok () ↔ Pre_kmatch sa sb ra rb := by
+  unfold validate_kmatch Pre_kmatch
+  by_cases h : sa = sb
+  · rw [if_neg (by simp [h]), rejectIf_ok]
+    simp [h]
+  · rw [if_pos (by simpa using h)]
+    simp [h]
+
+theorem validate_update_ok_iff (a : UpdateArgs) : validate_update a = .ok () ↔ Pre_update a := by
+  unfold validate_update Pre_update
+  by_cases h1 : (List.range (a.modes.length - 1)).all (fun i => decide (a.modes.getD i 0 < a.modes.getD (i + 1) 0)) = true
+  · rw [if_neg (by rw [not_bnot_true]; exact h1)]
+    have h1' : ∀ i, i < a.modes.length - 1 → a.modes.getD i 0 < a.modes.getD (i + 1) 0 := by
+      intro i hi
+      simpa using (List.all_eq_true.1 h1) i (List.mem_range.2 hi)
+    by_cases h2 : a.modes.any (fun k => decide (k < -1) || decide ((a.shape.length : Int) ≤ k)) = true
+    · rw [if_pos h2]
+      simp only [error_ne_ok, false_iff]
+      rintro ⟨_, h, _⟩
+      obtain ⟨k, hk, hb⟩ := List.any_eq_true.1 h2
+      have := h k hk
+      simp only [Bool.or_eq_true, decide_eq_true_eq] at hb
+      omega
+    · rw [if_neg h2, rejectIf_ok]
+      have h2' : ∀ k ∈ a.modes, -1 ≤ k ∧ k < (a.shape.length : Int) := by
+        intro k hk
+        have : ¬ ((decide (k < -1) || decide ((a.shape.length : Int) ≤ k)) = true) := fun hb =>
+          h2 (List.any_eq_true.2 ⟨k, hk, hb⟩)
+        simp only [Bool.or_eq_true, decide_eq_true_eq, not_or] at this
+        omega
+      simp only [decide_eq_false_iff_not, Nat.not_lt]
+      exact ⟨fun h => ⟨h1', h2', h⟩, fun h => h.2.2⟩
+  · rw [if_pos (by rw [bnot_true]; exact h1)]
+    simp only [error_ne_ok, false_iff]
+    rintro ⟨h, _⟩
+    apply h1
+    rw [List.all_eq_true]
+    intro i hi
+    simpa using h i (List.mem_range.1 hi)
+
+theorem fitsB_iff (s : SampleS) (e : Nat) : s.fitsB e = true ↔ s.fits e := by
+  cases s <;> simp [SampleS.fitsB, SampleS.fits]
+
+theorem validate_reconstruct_ok_iff (shape : List Nat) (samples : Option (List SampleS)) (modes : Option (List Int)) :
+    validate_reconstruct shape samples modes = .ok () ↔ Pre_reconstruct shape samples modes := by
+  unfold validate_reconstruct Pre_reconstruct
+  cases samples with
+  | none => cases modes <;> simp
+  | some ss =>
+    simp only
+    by_cases h1 : (allInRange shape.length (modes.getD ((List.range shape.length).map Int.ofNat)) &&
+        !hasDupI (modes.getD ((List.range shape.length).map Int.ofNat))) = true
+    · rw [if_neg (by rw [not_bnot_true]; exact h1)]
+      have h1' : ModesOK shape.length (modes.getD ((List.range shape.length).map Int.ofNat)) := by
+        rw [Bool.and_eq_true, allInRange_iff, Bool.not_eq_true', hasDupI_false] at h1
+        exact h1
+      by_cases h2 : ss ≠ [] → ss.length = (modes.getD ((List.range shape.length).map Int.ofNat)).length
+      · rw [if_neg (by
+          intro hc
+          simp only [Bool.and_eq_true, decide_eq_true_eq, bne_iff_ne] at hc
+          exact hc.2 (h2 (by intro e; rw [e] at hc; simp at hc)))]
+        rw [rejectIf_ok, Bool.not_eq_false', List.all_eq_true]
+        simp only [h1', true_and]
+        exact ⟨fun h => ⟨h2, fun p hp => (fitsB_iff _ _).1 (h p hp)⟩, fun h p hp => (fitsB_iff _ _).2 (h.2 p hp)⟩
+      · rw [if_pos (by
+          simp only [Bool.and_eq_true, decide_eq_true_eq, bne_iff_ne]
+          refine ⟨?_, fun e => h2 (fun _ => e)⟩
+          cases ss with
+          | nil => exact absurd (fun hne => absurd rfl hne) h2
+          | cons x xs => simp)]
+        simp only [error_ne_ok, false_iff]
+        rintro ⟨_, h, _⟩; exact h2 h
+    · rw [if_pos (by rw [bnot_true]; exact h1)]
+      simp only [error_ne_ok, false_iff]
+      rintro ⟨h, _⟩
+      apply h1
+      rw [Bool.and_eq_true, allInRange_iff, Bool.not_eq_true', hasDupI_false]
+      exact h
+
+theorem validate_kfromFunction_ok_iff (shape : List Nat) (R : Nat) (returned : List MatS) :
+    validate_kfromFunction shape R returned = .ok () ↔ Pre_kfromFunction shape R returned := by
+  simp [validate_kfromFunction, Pre_kfromFunction]
+
+theorem validate_sptenmatSet_ok_iff (a : SpSetArgs) : validate_sptenmatSet a = .ok () ↔ Pre_sptenmatSet a := by
+  unfold validate_sptenmatSet Pre_sptenmatSet
+  have key : ∀ (l : List Int) (n : Nat), l.any (fun r => decide (r < 0) || decide ((n : Int) ≤ r)) = false ↔
+      ∀ r ∈ l, 0 ≤ r ∧ r < (n : Int) := by
+    intro l n
+    rw [List.any_eq_false]
+    constructor
+    · intro h r hr
+      have := h r hr
+      simp only [Bool.or_eq_true, decide_eq_true_eq, not_or] at this
+      omega
+    · intro h r hr
+      have := h r hr
+      simp only [Bool.or_eq_true, decide_eq_true_eq, not_or]
+      omega
+  by_cases h1 : (a.rsubs.any (fun r => decide (r < 0) || decide ((a.mshape.1 : Int) ≤ r)) ||
+      a.csubs.any (fun c => decide (c < 0) || decide ((a.mshape.2 : Int) ≤ c))) = true
+  · rw [if_pos h1]
+    simp only [error_ne_ok, false_iff]
+    rintro ⟨hr, hc, _⟩
+    rw [(key _ _).2 hr, (key _ _).2 hc] at h1
+    cases h1
+  · rw [if_neg h1]
+    have h1' := by simpa [Bool.or_eq_false_iff] using h1
+    have hr := (key a.rsubs a.mshape.1).1 (by simpa using h1'.1)
+    have hc := (key a.csubs a.mshape.2).1 (by simpa using h1'.2)
+    cases hn : a.nvals with
+    | none => simp only [optAll, and_true, true_iff]; exact ⟨hr, hc⟩
+    | some n =>
+      simp only [rejectIf_ok, bne_eq_false_iff_eq, optAll]
+      exact ⟨fun h => ⟨hr, hc, h⟩, fun h => h.2.2⟩
+
+theorem validate_tenmatIndex_ok_iff (mshape : MatS) (i j : Int) :
+    validate_tenmatIndex mshape i j = .ok () ↔ Pre_tenmatIndex mshape i j := by
+  simp [validate_tenmatIndex, Pre_tenmatIndex, and_assoc]
+
+theorem validate_nvecs_ok_iff (shape : List Nat) (n r : Int) : validate_nvecs shape n r = .ok () ↔ Pre_nvecs shape n r := by
+  simp [validate_nvecs, Pre_nvecs, IsMode, and_assoc]
+
+theorem validate_tenfunUnary_ok_iff (shape : List Nat) (others : List (List Nat)) :
+    validate_tenfunUnary shape others = .ok () ↔ Pre_tenfunUnary shape others := by
+  simp [validate_tenfunUnary, Pre_tenfunUnary, List.any_eq_false]
+
+theorem validate_viz_ok_iff (N : Nat) (lens : List Nat) : validate_viz N lens = .ok () ↔ Pre_viz N lens := by
+  simp [validate_viz, Pre_viz, List.any_eq_false]
+
+theorem validate_spmatrix_ok_iff (shape : List Nat) : validate_spmatrix shape = .ok () ↔ Pre_spmatrix shape := by
+  simp [validate_spmatrix, Pre_spmatrix]
+
+theorem validate_spFromFunction_ok_iff (shape : List Nat) (nz : Int) (b : Bool) :
+    validate_spFromFunction shape nz b = .ok () ↔ Pre_spFromFunction shape nz b := by
+  unfold validate_spFromFunction Pre_spFromFunction
+  by_cases h : nz < 0 ∨ (numel shape : Int) < nz
+  · rw [if_pos (by simpa using h)]
+    simp only [error_ne_ok, false_iff]
+    rintro ⟨_, _, _⟩; omega
+  · rw [if_neg (by simpa using h), rejectIf_ok, Bool.not_eq_false']
+    exact ⟨fun hb => ⟨by omega, by omega, hb⟩, fun hb => hb.2.2⟩
+
+theorem validate_fromArray_ok_iff (ashape : MatS) (rdims cdims : Option (List Int)) (tshape : List Nat) :
+    validate_fromArray ashape rdims cdims tshape = .ok () ↔ Pre_fromArray ashape rdims cdims tshape := by
+  unfold validate_fromArray Pre_fromArray
+  cases hw : wrapDimsI tshape.length rdims cdims none with
+  | none => simp
+  | some rc =>
+    obtain ⟨r, c⟩ := rc
+    simp only
+    by_cases hp : IsPermI (r ++ c) tshape.length
+    · rw [if_neg (by rw [not_bnot_true, isPermOfI_iff]; exact hp), rejectIf_ok]
+      simp only [hp, true_and, Bool.and_eq_false_imp, Bool.and_eq_true, decide_eq_true_eq, Bool.or_eq_false_iff,
+        decide_eq_false_iff_not, Nat.not_lt]
+    · rw [if_pos (by rw [bnot_true, isPermOfI_iff]; exact hp)]
+      simp [hp]
 
 end V19
 end Pyttb
